@@ -1,0 +1,12 @@
+//go:build verif && (!amd64 || !gc || purego)
+
+package chacha20poly1305
+
+// VerifC01HasAsm reports whether this build contains the amd64 assembly path.
+const VerifC01HasAsm = false
+
+// VerifC01UseAVX2 always reports false on builds without the assembly.
+func VerifC01UseAVX2() bool { return false }
+
+// VerifC01SetAVX2 is a no-op on builds without the assembly.
+func VerifC01SetAVX2(on bool) (old bool) { return false }
